@@ -3,9 +3,9 @@ CONSTANTS
   Workers = {"w1", "w2"}
   Cap = 1
   ResultKinds = {"ok", "err"}
-  OutOf <- OutSingle
-  SingleFile = TRUE
-  GenKinds = {"ok"}
+  OutOf <- OutTwo
+  SingleFile = FALSE
+  GenKinds = {"ok", "generr"}
   Items <- ItemsDistinct
 SPECIFICATION Spec
 INVARIANTS TypeOk ExitOk NoWriteWithErrors WroteOk NoPanicExit
